@@ -214,7 +214,7 @@ theorem render_follows_rules_partial (c : List Level) (hwf : wf c = true) (hc : 
   rw [render_built c hwf hc, ruleRender, heapDispatch_built]
   apply invoke_congr
   intro env kids hk
-  exact exec_congr c (specDispatch c) (ruleDispatch c) rfl rfl
+  exact exec_congr c (specDispatch c) (ruleDispatch c) rfl rfl rfl
     (fun ns x hx => by simp [specDispatch, hn x hx]) fuel env kids hk
 
 example : compiles ex3 = true ∧ ∀ x ∈ usedNames ex3, x ∉ nsAttrs := by decide
@@ -377,6 +377,49 @@ theorem named_block_counterexample :
         { nodes := [.call .next bodyName [] []] } ]
     wf c = true ∧ compiles c = true ∧
     ruleRender c 20 [] = .ok [.text 1, .text 2] ∧ render c 20 [] = .ok [.text 1] := by decide
+
+/-! ## `<%include>` -/
+
+/-- obligation on the regenerated facts (tools/regen_nsattrs.py) behind `renderIn`: the context an included
+template starts from has lost the includer's `parent` and `next` (`Context._clean_inheritance_tokens` pops them),
+`_include_file` really hands that context to `_populate_self_namespace`, and the latter sets `self` and `local`
+afresh - so none of the includer's four inheritance names reaches the included template. -/
+theorem include_starts_from_clean_context_obligation :
+    (['p', 'a', 'r', 'e', 'n', 't'] ∈ Generated.NsAttrs.cleanPops ∧
+     ['n', 'e', 'x', 't'] ∈ Generated.NsAttrs.cleanPops) ∧
+    Generated.NsAttrs.includeUsesCleanContext = true ∧
+    Generated.NsAttrs.populateSetsSelfLocal = true := by decide
+
+/-- **include_starts_from_clean_context.**  What `<%include>` writes does not depend on the code that includes
+it (its template, context, page arguments): the statement is `D.inc k`; and for a library of chains `D.inc k` is
+`renderIn` of entry `k`, which - for a well-formed entry whose templates compile - is the body of *that* entry's
+base-most template run with *that* entry's own `self/next/parent/local` (`specDispatch ck`, index arithmetic over
+`ck` alone: `parent` absent in its base-most template, `next` absent in its most derived one, `self` its most
+derived namespace), with no arguments. -/
+theorem include_starts_from_clean_context (lib : List (List Level)) (fuel d k : Nat) (ck : List Level)
+    (hk : lib[k]? = some ck) (hwf : wf ck = true) (hc : compiles ck = true)
+    (c : List Level) (D : Dispatch) (run : Env → List Node → Res) (env₁ env₂ : Env) :
+    step c D run env₁ (.incl k) = step c D run env₂ (.incl k) ∧
+    step c D run env₁ (.incl k) = D.inc k ∧
+    renderLib lib fuel (d + 1) k =
+      invoke ck (exec ck { specDispatch ck with inc := renderLib lib fuel d } fuel)
+        (.member (ck.length - 1) (ck.length - 1)) bodyName [] [] := by
+  refine ⟨rfl, rfl, ?_⟩
+  simp only [renderLib, hk]
+  have hp := populateSelf_built ck hwf hc
+  cases ck with
+  | nil => simp [wf] at hwf
+  | cons t r =>
+    simp only [compiles, List.all_cons, Bool.and_eq_true] at hc
+    simp only [renderIn, hc.1, Bool.not_true, Bool.false_eq_true, if_false, hp, heapDispatch_built]
+
+example :
+    let inner : List Level := [{ nodes := [.text 5, .block (some ['b']) 1 [.text 6]] }]
+    let outer : List Level :=
+      [ { nodes := [.text 1, .incl 1, .block (some ['b']) 1 [.text 2]], inherit := .static },
+        { nodes := [.block (some ['b']) 1 [.text 3], .call .next bodyName [] []] } ]
+    -- the included template's block `b` renders although the includer's parent declares `b`
+    renderTop [outer, inner] 3 30 [] = .ok [.text 2, .text 1, .text 5, .text 6] := by decide
 
 /-! ## arguments of body() -/
 
